@@ -50,3 +50,10 @@ package grpcutil
 //@   props C11
 //@   requires mcc != nil
 //@   ensures @unknown_refused: old(!(addr in mcc.connMap)) ==> result0 == nil && result1 != nil
+
+// C11 ("report unavailability when none remain"): the client connection is built with fail-fast calls - with no
+// session to pick, a call returns Unavailable at once instead of being queued until its deadline (or for ever).
+// The default call options therefore never contain WaitForReady(true).
+//@ contract MakeDialOptions
+//@   props C11
+//@   callpre WaitForReady: @calls_fail_fast: !$0
